@@ -29,7 +29,7 @@ from .core import Ctx, MachineryError
 from .store_replay import pmap
 
 C_TC2 = 40000.0
-DT = {'none': 0.0, 'partial': 10.0, 'clipped': 50.0, 'cold': -10.0, 'advanced': 0.0}
+DT = {'none': 0.0, 'partial': 10.0, 'clipped': 50.0, 'cold': -10.0, 'advanced': 0.0, 'inverted': -10.0}
 
 
 def fr(x):
@@ -74,7 +74,7 @@ def eval_point(case):
             break
     temp = temperature_at_altitude_isa_bada4(alt) + DT[c['der']]
     rho = calculate_air_density(pressure_at_altitude_isa_bada4(alt), temp)
-    params = make_params(c['eng'], S_ref=float(2.0 / rho[0]), **({'c_tcr': float(fr(c['ctcr']))} if 'ctcr' in c else {}), **({'c_tc4': -5.0} if c['der'] == 'advanced' else {}))
+    params = make_params(c['eng'], S_ref=float(2.0 / rho[0]), **({'c_tcr': float(fr(c['ctcr']))} if 'ctcr' in c else {}), **({'c_tc4': -5.0} if c['der'] == 'advanced' else {}), **({'c_tc5': -0.01} if c['der'] == 'inverted' else {}))
     model = Bada3FuelBurnModel(params)
     W, v = float(fr(c['W'])), np.array([float(fr(c['v']))])
     mass = np.array([W / g0])
